@@ -249,6 +249,7 @@ def run_jobs(h, jobs):
         p0, f = j["_p0"], j["_r1"]
         res = {"issues": [], "f1": None, "skipped": False, "stale": None}
         out.append(res)
+        p1, f2 = (next(r2), next(r2)) if f.get("ok") else (None, None)     # (answers are consumed in step with the requests)
 
         def issue(what, key=None, **detail):
             detail["text"] = j["text"]
@@ -273,7 +274,6 @@ def run_jobs(h, jobs):
             continue
         f1 = f["text"]
         res["f1"] = f1
-        p1, f2 = next(r2), next(r2)
         if "crash" in p1 or "crash" in f2:
             issue("crash", None, obs=str(p1 if "crash" in p1 else f2)[:300], f1=f1)
             continue
@@ -823,6 +823,8 @@ def main(tier, replay=None):
         "trusted_base": ["TLC 1.8.0", "vp/fmtlay.py (renderer, scanner, normal forms)", "harness AST projection (harness/src/proj.rs)",
                          "Rust's shortest round-trip float printing for the float pool"],
     }, time.time() - t0, violations=len(rep.violations), assumptions=ASSUMPTIONS)
+    import shutil
+    shutil.rmtree(gd, ignore_errors=True)
     if stale and code == 0:
         raise C.ToolError("spec/Fmt.tla no longer transcribes the code: on %d case(s) the property holds but the printer's text / "
                           "comment placement is not the predicted one (the property leaves it free, so this is no verdict): %s"
